@@ -21,11 +21,12 @@ import (
 )
 
 type sample struct {
-	Kind     string `json:"kind"`
-	S2S      bool   `json:"s2s"`
-	Actors   int    `json:"actors,omitempty"`
-	Requests int    `json:"requests_per_actor,omitempty"`
-	Log      []ev   `json:"event_log,omitempty"`
+	Kind          string `json:"kind"`
+	S2S           bool   `json:"s2s"`
+	Actors        int    `json:"actors,omitempty"`
+	Requests      int    `json:"requests_per_actor,omitempty"`
+	SyncTransport bool   `json:"synchronous_transport,omitempty"`
+	Log           []ev   `json:"event_log,omitempty"`
 }
 
 // receiptRequest runs one receipts.SendMessageElement wait.
@@ -179,15 +180,30 @@ func runStress(c *core.Case) {
 	if c.Tier == "thorough" {
 		nActors = 1 + r.Intn(16)
 	}
-	smp := &sample{Kind: "stress", S2S: o.S2S, Actors: nActors, Requests: nReq}
+	// one history in six runs on a transport whose writes are synchronous in
+	// both directions (like net.Pipe: a write returns when the other side has
+	// read it) with responses larger than the session's read buffer: requesters
+	// blocked in their write, the peer blocked in its write of a response, and
+	// the serve loop in between must not wait for one another
+	syncT := c.Index%6 == 4
+	if syncT && nActors < 2 {
+		nActors = 2 + r.Intn(3)
+	}
+	smp := &sample{Kind: "stress", S2S: o.S2S, Actors: nActors, Requests: nReq, SyncTransport: syncT}
 	c.Sample(smp)
 	w := newWorld(c, o)
 	if w == nil {
 		return
 	}
+	if syncT {
+		w.pad = 9000 + r.Intn(8000)
+		w.p.Lib.SetSyncWrites(true)
+		w.p.Peer.SetSyncWrites(true)
+		c.Count("stress_histories_on_a_synchronous_transport_with_large_responses", 1)
+	}
 	// a receipt for a message nobody sent, before any request: must reach
 	// the Unhandled callback without disturbing anything
-	if r.Intn(2) == 0 {
+	if r.Intn(2) == 0 && !syncT {
 		rn := w.nextRN()
 		w.log.add(ev{Ev: "deliver", RN: rn, Kind: "message", Typ: "chat", Note: "receipt/unsolicited"})
 		w.p.Send(w.receiptMessage(rn, fmt.Sprintf("u%d", rn), "<received xmlns='urn:xmpp:receipts' id='nobody'/>"))
